@@ -237,6 +237,21 @@ def rule_enum(ctx, py):
         n, res = raise_on_complement(f, want)
         ctx.check(res is True, R, n or f, q, "accepts exactly %s" % sorted(want), "raises on anything else",
                   "the accepted set is %s" % (sorted(res) if isinstance(res, set) else "not tested"))
+        # what is kept is what was tested: when the membership test is made on a transformed copy of the value (lower-cased,
+        # stripped, converted), the value stored afterwards is that copy -- every consumer compares with the exact words
+        if n is not None:
+            subj = None
+            for a, pol in pya.atoms(n.test, True):
+                if pol is False and " in [" in a:
+                    subj = a.split(" in [", 1)[0]
+            for st in ast.walk(f):
+                if isinstance(st, ast.Assign) and len(st.targets) == 1 and pyfe.src(st.targets[0]).startswith("self.") and \
+                        st.lineno >= n.lineno and subj:
+                    v = pyfe.src(st.value)
+                    if v != subj and len(v) > 1 and v in subj:
+                        ctx.violation(R, st, q, pyfe.src(st)[:70], "the test is made on `%s` but `%s` is what is stored: a value "
+                                      "that passes only after the transformation (other capitalisation, blanks) is kept as given "
+                                      "and matches none of the accepted words where it is used" % (subj[:50], v[:40]))
     # unit symbols: the three checkers raise unless the symbol is in the label table of their own kind
     for k in ("space", "time", "quantity"):
         f = py.fn("units.UnitsSystem._check_" + k)
